@@ -208,8 +208,10 @@ def simulate(rule, cmds, s_old):
                 cur = set()
             elif c.startswith(prefix + " "):
                 if style == "cisco-add":
-                    raise ValueError("swtrunk emitted a replacing command %r" % c)
-                cur |= parse_cisco(c[len(prefix) + 1:])
+                    # the plain form REPLACES the whole allowed list on the device
+                    cur = parse_cisco(c[len(prefix) + 1:])
+                else:
+                    cur |= parse_cisco(c[len(prefix) + 1:])
             else:
                 raise ValueError("unexpected command %r" % c)
         inter.append(set(cur))
